@@ -166,6 +166,10 @@ POINTER_DOC = {
     "a b": "space", "a+b": "plus", "\u00e9": "accent", "arr": [["x"], "str"], "00": "double-zero", "1e0": "sci", "-1": "neg", "s": "text",
     "n": None, "%25": "percent", "t": True, "big": list(range(100, 112)), "caf\u00e9": "nfc", "cafe\u0301": "nfd", "\u2126": "ohm", "\u03a9": "omega",
     "A": "upper", "a ": "trailing-space", "a?b#c": "query-hash", "q\"\\": "quote-backslash",
+    # keys that themselves look like escapes, below the first level (each token is decoded exactly once, at every depth)
+    "nest": {"My%20Type": 7, "My Type": 70, "A": 8, "%41": 80, "lvl": {"x%41": 9, "xA": 10, "x%2541": 11, "": {"": "empty-empty", "k": 12}}, "~0": 13, "~": 14, "a~1b": 15},
+    # a member name made of digits only, longer than the interpreter's int/str conversion limit: it is a *name*, never converted
+    "digits": {"7" * 5000: "long-digit-key", "12": "twelve"},
 }
 POINTERS = ["", "/a", "/a/b", "/a/b/0", "/a/b/2/c", "/a/b/3", "/a/b/-1", "/a/b/01", "/a/b/1e0", "/a/b/ 1", "/a/b/+1", "/a/b/1.0", "/", "//", "/a~1b", "/m~0n",
             "/~01", "/~1", "/0", "/a%20b", "/a+b", "/%C3%A9", "/a%2Fb", "/arr/0/0", "/arr/1/0", "/arr/1", "/s/0", "/n/x", "/00", "/1e0", "/-1",
@@ -173,7 +177,10 @@ POINTERS = ["", "/a", "/a/b", "/a/b/0", "/a/b/2/c", "/a/b/3", "/a/b/-1", "/a/b/0
             "/big/0", "/big/2", "/big/9", "/big/10", "/big/11", "/big/12", "/big/20", "/big/100", "/caf%C3%A9", "/cafe%CC%81", "/%E2%84%A6", "/%CE%A9",
             "/A", "/a%20", "/a%3Fb%23c", "/q%22%5C", "/a?b#c",
             # an index token longer than the interpreter's int/str conversion limit (sys.int_max_str_digits, 4300 since Python 3.11)
-            "/big/" + "1" * 5000, "/arr/" + "9" * 4400 + "/0"]
+            "/big/" + "1" * 5000, "/arr/" + "9" * 4400 + "/0",
+            "/nest/My%2520Type", "/nest/My%20Type", "/nest/%2541", "/nest/%41", "/nest/lvl/x%2541", "/nest/lvl/x%41", "/nest/lvl/x%252541", "/nest/lvl//", "/nest/lvl//k",
+            "/nest/lvl/", "/nest/", "/nest/~00", "/nest/~0", "/nest/a~01b", "/nest/lvl///",
+            "/digits/" + "7" * 5000, "/digits/12", "/digits/" + "7" * 4999, "/digits/012"]
 _MISSING = object()
 
 
@@ -230,9 +237,62 @@ def table_eval(prog, f):
     return bad
 
 
+def resolve_eval(prog):
+    """The same table one level up: RefResolver.resolve('#<fragment>') on a resolver whose own document is POINTER_DOC.  The
+    fragment must reach the pointer walk as written in the reference (nothing trimmed, re-encoded or decoded on the way), and the
+    URL handed back must be the joined URL.  -> list of messages, or None when outside the evaluated fragment."""
+    from urllib.parse import urljoin, urldefrag
+    from ..tokeval import Undecided, PyRaise
+    from .ressem import _resolver
+    base = "http://base/root/doc.json"
+    bad = []
+    try:
+        for frag in POINTERS:
+            ev, o, R, st = _resolver(prog, {}, store={base: POINTER_DOC}, base=base)
+            ref = "#" + frag
+            want_url = urljoin(base, ref)
+            want = _rfc6901(POINTER_DOC, urldefrag(want_url)[1])
+            shown = repr(ref) if len(ref) < 60 else repr(ref[:14]) + "... (%d characters)" % len(ref)
+            try:
+                got_url, got = ev.call_func(ev.find_method(R, "resolve"), [o, ref], {})
+                err = None
+            except PyRaise as pr:
+                got_url, got, err = None, _MISSING, pr.name
+            if err is not None and err != "RefResolutionError":
+                bad.append("resolve(%s): %s escapes instead of RefResolutionError" % (shown, err))
+            elif want is _MISSING and err is None:
+                bad.append("resolve(%s) designates nothing in the document, yet %r is returned" % (shown, got))
+            elif want is not _MISSING and (err is not None or not (got is want or (type(got) is type(want) and got == want))):
+                bad.append("resolve(%s) designates %r, but %s" % (shown, want, ("%r is returned" % (got,)) if err is None else "RefResolutionError is raised"))
+            elif err is None and got_url != want_url:
+                bad.append("resolve(%s) hands back the URL %r, the joined URL is %r" % (shown, got_url, want_url))
+    except Undecided:
+        return None
+    return bad
+
+
+def rule_through_resolve(ctx, rid="R14.5"):
+    prog = ctx.prog
+    f = find_method(prog, "validators.RefResolver", "resolve")
+    r = ctx.rule(rid, "a reference's fragment reaches the pointer walk as written: resolve('#<fragment>') designates what RFC 6901 says, on the whole table", floor=1)
+    try:
+        res = resolve_eval(prog)
+    except RecursionError:
+        res = None
+    if res is None:
+        r.ok(site(f), "NOT DECIDED: outside the evaluated fragment")
+        r.note(site(f), "R14.5 not decided")
+    elif not res:
+        r.ok(site(f), "%d fragments through resolve(): same targets as the reference reading, URL = the joined URL" % len(POINTERS))
+    else:
+        r.fail("%s|fragment-altered" % f.qual, site(f), res[0] + " [%d of %d fragments differ]" % (len(res), len(POINTERS)))
+    return r
+
+
 def run_rules(ctx):
     prog = ctx.prog
     f = find_method(prog, "validators.RefResolver", "resolve_fragment")
+    rule_through_resolve(ctx)
     try:
         run_rules_dataflow(ctx)
         # the ordering analysis speaks about the order of operations; what it cannot see (an extra test on the token, a
